@@ -56,6 +56,7 @@ type wsConn struct {
 }
 
 type relayInst struct {
+	hung int // consecutive operations that timed out
 	closed     chan struct{}
 	hub        *crossbar.Hub
 	cs         *ttlcode.CodeStore
@@ -354,7 +355,17 @@ func init() {
 					r = newRelayInst(false, 8)
 					cur = r
 				}
-				return withTimeout(20*time.Second, func() string { return relayOp(r, fs) })
+				// an instance that has stopped answering is not asked again (each further request would cost a full time-out)
+				if r.hung >= 3 {
+					return "dead"
+				}
+				res := withTimeout(20*time.Second, func() string { return relayOp(r, fs) })
+				if res == "stuck" || strings.Contains(res, "transport-error") {
+					r.hung++
+				} else {
+					r.hung = 0
+				}
+				return res
 			}
 		})
 		if cur != nil {
